@@ -702,7 +702,10 @@ class Unit:
 
     def __hash__(self) -> int:
         """hash(self)"""
-        return hash(self.symbol)
+        if self._equiv is None:
+            return hash(self.symbol)
+        # units which are equal must have the same hash
+        return hash((self._qty_cls, self._equiv))
 
     def __copy__(self) -> Unit:
         """Return self (:class:`Unit` instances are immutable)."""
@@ -1060,7 +1063,8 @@ class QuantityMeta(ClassWithDefinitionMeta):
         cls._converters: List[ConverterT] = []
 
     def _make_unit(cls, symbol: str, name: Optional[str],  # noqa: N805
-                   define_as: Optional[UnitDefT]) -> Unit:
+                   define_as: Optional[UnitDefT],
+                   is_ref_unit: bool = False) -> Unit:
         unit_cls = cls._unit_cls
         unit = object.__new__(unit_cls)
         unit._qty_cls = cls
@@ -1073,6 +1077,9 @@ class QuantityMeta(ClassWithDefinitionMeta):
             assert define_as is None, "Unknown type of Unit definition."
             unit._definition = None
             unit._equiv = None
+        if is_ref_unit:
+            # has to be set before the unit gets registered (hash!)
+            unit._equiv = ONE
         assert symbol, "A symbol must be given for the unit."
         try:
             _SYMBOL_UNIT_MAP[symbol]
@@ -1091,9 +1098,8 @@ class QuantityMeta(ClassWithDefinitionMeta):
 
     def _make_ref_unit(cls, symbol: str, name: Optional[str],  # noqa: N805
                        define_as: Optional[UnitDefT]) -> Unit:
-        unit = cls._make_unit(symbol, name, define_as=define_as)
-        unit._equiv = ONE
-        return unit
+        return cls._make_unit(symbol, name, define_as=define_as,
+                              is_ref_unit=True)
 
     @property
     def ref_unit(cls) -> Optional[Unit]:  # noqa: N805
